@@ -3,6 +3,7 @@ package main
 import (
 	"fmt"
 	"go/token"
+	"go/types"
 	"sort"
 	"strings"
 
@@ -81,6 +82,14 @@ func runC19(c *Ctx) {
 		order = append(order, key)
 	}
 	storedFields := map[string]token.Pos{}
+	type newAcc struct {
+		fn     string
+		write  bool
+		held   map[string]string
+		pos    token.Pos
+		atomic bool
+	}
+	newAccs := map[string][]newAcc{}
 	for _, f := range c.AllFns {
 		if f.Pkg == nil {
 			continue
@@ -144,18 +153,87 @@ func runC19(c *Ctx) {
 					storedFields[field] = in.Pos()
 				}
 			}
-			if !listed {
-				return
-			}
 			fname := fnName(root)
 			if f != root {
 				fname = fnName(f)
+			}
+			if !listed {
+				// a field the table does not know (added later): its accesses are collected and
+				// judged together below (consistent lockset)
+				held := map[string]string{}
+				for h, k := range x.heldAt(in) {
+					held[h] = k
+				}
+				if f.Parent() == nil && f.Object() != nil && !f.Object().Exported() {
+					for _, mu := range c.allMutexNames() {
+						if _, has := held[mu]; !has {
+							if hold, _ := c.callersHold(f, mu); hold {
+								held[mu] = "Lock"
+							}
+						}
+					}
+				}
+				atomicOnly := !isStore && !isLoad
+				for _, ref := range *fa.Referrers() {
+					if call, isCall := ref.(*ssa.Call); isCall {
+						if cal := call.Call.StaticCallee(); cal == nil || cal.Pkg == nil || cal.Pkg.Pkg.Path() != "sync/atomic" {
+							atomicOnly = false
+						}
+					} else if _, isDbg := ref.(*ssa.DebugRef); !isDbg {
+						if _, isSt := ref.(*ssa.Store); !isSt {
+							if _, isLd := ref.(*ssa.UnOp); !isLd {
+								atomicOnly = false
+							}
+						}
+					}
+				}
+				if isStore || isLoad || atomicOnly {
+					newAccs[field] = append(newAccs[field], newAcc{fname, isStore, held, in.Pos(), atomicOnly})
+				}
+				return
 			}
 			for _, kind := range []string{"write", "read"} {
 				if (kind == "write" && !isStore) || (kind == "read" && !isLoad) {
 					continue
 				}
-				held := x.heldAt(in)
+				// the locks held where the field is actually read / written (the address may
+				// have been taken earlier, e.g. to hand it to a helper); several accesses
+				// through one address: the locks common to all of them
+				var held map[string]string
+				for _, ref := range *fa.Referrers() {
+					var at ssa.Instruction
+					switch r := ref.(type) {
+					case *ssa.Store:
+						if kind == "write" && r.Addr == ssa.Value(fa) {
+							at = r
+						}
+					case *ssa.UnOp:
+						if kind == "read" {
+							at = r
+						}
+					}
+					if at == nil {
+						continue
+					}
+					h := c.Index(at.Parent()).heldAt(at)
+					if held == nil {
+						held = map[string]string{}
+						for k, v := range h {
+							held[k] = v
+						}
+						continue
+					}
+					for k, v := range held {
+						if hv, ok := h[k]; !ok {
+							delete(held, k)
+						} else if v == "Lock" && hv != "Lock" {
+							held[k] = hv
+						}
+					}
+				}
+				if held == nil {
+					held = x.heldAt(in)
+				}
 				switch spec.policy {
 				case "lock":
 					hk, ok := held[spec.guard]
@@ -234,8 +312,60 @@ func runC19(c *Ctx) {
 	}
 	sort.Strings(sf)
 	for _, f := range sf {
-		_, listed := guardedBy[f]
-		c.Check("L2-table-complete", f, listed, storedFields[f], "field %s is written somewhere in the product but has no entry in the guarded-by table: its synchronisation is unknown", f)
+		if _, listed := guardedBy[f]; listed {
+			c.Check("L2-table-complete", f, true, storedFields[f], "field %s is in the guarded-by table", f)
+			continue
+		}
+		// a field written outside construction that the table does not list: it must be
+		// accessed under one common lock everywhere (writes exclusively), or only through
+		// sync/atomic
+		accs := newAccs[f]
+		common := map[string]bool{}
+		first := true
+		allAtomic := len(accs) > 0
+		for _, a := range accs {
+			if !a.atomic {
+				allAtomic = false
+			}
+			cur := map[string]bool{}
+			for h, k := range a.held {
+				if !a.write || k == "Lock" {
+					cur[h] = true
+				}
+			}
+			if first {
+				common, first = cur, false
+				continue
+			}
+			for h := range common {
+				if !cur[h] {
+					delete(common, h)
+				}
+			}
+		}
+		var cl []string
+		for h := range common {
+			cl = append(cl, h)
+		}
+		sort.Strings(cl)
+		ok := allAtomic || len(cl) > 0
+		why := ""
+		if !ok {
+			var parts []string
+			for _, a := range accs {
+				k := "read"
+				if a.write {
+					k = "write"
+				}
+				parts = append(parts, fmt.Sprintf("%s in %s holding %v", k, a.fn, heldNames(a.held)))
+			}
+			sort.Strings(parts)
+			if len(parts) > 6 {
+				parts = parts[:6]
+			}
+			why = strings.Join(parts, "; ")
+		}
+		c.Check("L2-table-complete", f, ok, storedFields[f], "field %s is written outside construction and is not in the guarded-by table; its accesses must share a lock (found common: %v) or all be atomic: %s", f, cl, why)
 	}
 	c.Min("L2-table-complete", 6)
 	// local-variable store and injected table
@@ -292,4 +422,36 @@ func runC19(c *Ctx) {
 		c.Lost("L5-captured-writes-locked", "stores to captured variables inside goroutines")
 	}
 	c.Min("L5-captured-writes-locked", 16)
+}
+
+// allMutexNames lists the mutex fields of the product's struct types ("Type.field").
+func (c *Ctx) allMutexNames() []string {
+	if v, ok := c.extra["mutexNames"].([]string); ok {
+		return v
+	}
+	var out []string
+	for _, pp := range productPkgs {
+		sp := c.SSA[pp]
+		if sp == nil {
+			continue
+		}
+		for _, m := range sp.Members {
+			t, ok := m.(*ssa.Type)
+			if !ok {
+				continue
+			}
+			st, ok := t.Type().Underlying().(*types.Struct)
+			if !ok {
+				continue
+			}
+			for i := 0; i < st.NumFields(); i++ {
+				if isSyncType(st.Field(i).Type(), "Mutex") || isSyncType(st.Field(i).Type(), "RWMutex") {
+					out = append(out, t.Name()+"."+st.Field(i).Name())
+				}
+			}
+		}
+	}
+	sort.Strings(out)
+	c.extra["mutexNames"] = out
+	return out
 }
